@@ -35,7 +35,7 @@ seams)
   # A dependency that issued its own raw syscall, or a libc entry point we do not interpose
   # (copy_file_range, sendfile, pwritev, fallocate, truncate, renameat2 via libc), shows as a difference.
   fail=0
-  for p in C04 C05 C06 C07 C10 C12 C17; do
+  for p in C04 C05 C06 C07 C10 C11 C12 C17; do
     log=/dev/shm/selftest.$$.strace
     SIM_COUNT_SYSCALLS=1 PATH="$EMPTY" "$STRACE" -f -qq -o $log "$SIM" selftest hashes $p 40 --seed 99 > /dev/shm/selftest.$$.out 2> /dev/shm/selftest.$$.err
     cnt() { grep -cE "^[0-9]+ +($1)\(" $log; }
